@@ -1,5 +1,6 @@
 (** C10 — proofs about the compass projection model (Evm/Compass.v). *)
-From Coq Require Import List ZArith Bool Lia Permutation Sorted String.
+From Coq Require Import String.
+From Coq Require Import List ZArith Bool Lia Permutation Sorted.
 From Paloma Require Import Base.Num Valset.Snapshot Valset.SnapshotProofs Evm.Compass.
 From Paloma Require Gen.C10.
 Import ListNotations.
@@ -28,6 +29,39 @@ Lemma source_shape :
   Gen.C10.snapshot_id_allocators = ["setSnapshotAsCurrent"]%string /\
   Gen.C10.set_on_chain_mutations = ["snapshot.Chains = append(snapshot.Chains, chainReferenceID)"]%string.
 Proof. repeat split; reflexivity. Qed.
+
+(** How chain reference ids and chain types are compared (round 2): MissingChains keys its set by the
+    input id as given and looks the chain's id up as stored; it skips inactive chains; it calls nothing
+    that could rewrite a string; ValidatorSupportsAllChains feeds it the accounts' reference ids and
+    accepts only an empty result; the chain type is lower-cased and compared with "evm".
+    SaveModifiedSnapshot has no caller outside tests; the other writers are called from where the
+    history model says. *)
+Lemma source_ids_shape :
+  Gen.C10.missing_chains_set_build =
+    ["range inputChainReferenceIDs -> chainReferenceID"; "supportedChainMap[chainReferenceID] = true"]%string /\
+  Gen.C10.missing_chains_walk =
+    ["range allChains -> chain";
+     "chainReferenceID := chain.GetChainReferenceID()";
+     "if !chain.IsActive() { continue }";
+     "if _, found := supportedChainMap[chainReferenceID]; !found { unsuportedChainReferenceIDs = append(unsuportedChainReferenceIDs, chainReferenceID) }"]%string /\
+  Gen.C10.missing_chains_calls =
+    ["append"; "chain.GetChainReferenceID"; "chain.IsActive"; "k.GetAllChainInfos"; "k.Logger";
+     "k.Logger(sdkCtx).Error"; "len"; "make"; "sdk.UnwrapSDKContext"]%string /\
+  Gen.C10.missing_chains_normalising_calls = [] /\
+  Gen.C10.supports_all_input_element = "v.GetChainReferenceID()"%string /\
+  Gen.C10.supports_all_result = "len(missingChains) == 0"%string /\
+  Gen.C10.supports_all_normalising_calls = [] /\
+  Gen.C10.xchain_type = "evm"%string /\
+  Gen.C10.callers_of_SaveModifiedSnapshot = [] /\
+  Gen.C10.callers_of_setSnapshotAsCurrent = ["x/valset/keeper:TriggerSnapshotBuild"]%string /\
+  Gen.C10.callers_of_SetSnapshotOnChain = ["x/evm/keeper:attest"]%string /\
+  Gen.C10.callers_of_TriggerSnapshotBuild = ["x/skyway/keeper:addValidators"; "x/valset:EndBlock"]%string.
+Proof. repeat split; reflexivity. Qed.
+
+(** the chain-type test, spelled out: exactly the eight spellings of "evm" in ASCII letters *)
+Lemma ei_evm_spec e :
+  ei_evm e = true <-> to_lower (ei_type e) = "evm"%string.
+Proof. unfold ei_evm. rewrite String.eqb_eq. reflexivity. Qed.
 
 Lemma quorum_constant :
   threshold = 2 ^ 33 / 3 /\ 3 * threshold = 2 * 2 ^ 32 - 2 /\ max_power = 2 ^ 32 /\
@@ -106,7 +140,7 @@ Lemma accounts_on_find c v :
 Proof. unfold accounts_on. rewrite stops_at_first. apply firstn1_filter. Qed.
 
 (** the projection of one validator, written out *)
-Definition entry_of (c total : Z) (v : snapval) : list (Z * Z) :=
+Definition entry_of (c : string) (total : Z) (v : snapval) : list (Z * Z) :=
   match find (on_chain c) (v_infos v) with
   | Some e => [(ei_addr e, power_of (v_share v) total)]
   | None => []
@@ -193,7 +227,7 @@ Qed.
 
 (** * The projection theorem *)
 
-Definition ideal_entry (c total : Z) (v : snapval) : list (Z * Z) :=
+Definition ideal_entry (c : string) (total : Z) (v : snapval) : list (Z * Z) :=
   match find (on_chain c) (v_infos v) with
   | Some e => [(ei_addr e, v_share v * two32 / total)]
   | None => []
@@ -253,7 +287,7 @@ Proof.
     unfold ideal_entry in Hin. destruct (find (on_chain c) (v_infos v)) as [e|] eqn:F; [|destruct Hin].
     destruct Hin as [Hin|[]]. inversion Hin; subst a p.
     pose proof (find_some _ _ F) as [He Hc]. unfold on_chain in Hc. apply andb_true_iff in Hc as [Hevm Hch].
-    apply Z.eqb_eq in Hch.
+    apply String.eqb_eq in Hch.
     destruct (power_of_floor _ _ (share_le_total _ v Hn Hv)) as (E & R & Fl). fold total in E, R, Fl.
     exists v, e. repeat split; auto; try (rewrite <- E; apply R); try (rewrite <- E; apply Fl; assumption).
   - intros v e Hv F. apply (Permutation_in _ (Permutation_sym P)).
@@ -391,37 +425,38 @@ Qed.
 
 (** * Non-vacuity *)
 
+Local Open Scope string_scope.
 Definition ex_vals : list snapval :=
-  [ {| v_addr := 1; v_share := 4096;    v_infos := [ {| ei_evm := true; ei_chain := 0; ei_addr := 11 |} ] |};
-    {| v_addr := 2; v_share := 4190209; v_infos := [ {| ei_evm := false; ei_chain := 0; ei_addr := 20 |};
-                                                     {| ei_evm := true; ei_chain := 0; ei_addr := 21 |};
-                                                     {| ei_evm := true; ei_chain := 0; ei_addr := 22 |} ] |};
-    {| v_addr := 3; v_share := 0;       v_infos := [ {| ei_evm := true; ei_chain := 1; ei_addr := 31 |} ] |} ].
+  [ {| v_addr := 1; v_share := 4096;    v_infos := [ {| ei_type := "evm"; ei_chain := "c0"; ei_addr := 11; ei_traits := [] |} ] |};
+    {| v_addr := 2; v_share := 4190209; v_infos := [ {| ei_type := "cosmos"; ei_chain := "c0"; ei_addr := 20; ei_traits := [] |};
+                                                     {| ei_type := "evm"; ei_chain := "c0"; ei_addr := 21; ei_traits := [] |};
+                                                     {| ei_type := "evm"; ei_chain := "c0"; ei_addr := 22; ei_traits := [] |} ] |};
+    {| v_addr := 3; v_share := 0;       v_infos := [ {| ei_type := "evm"; ei_chain := "c1"; ei_addr := 31; ei_traits := [] |} ] |} ].
 
 (** the F7 witness: the integer model gives the floor 4290772992 (the float code gave ...993);
     validator 2's second account on the chain is not listed; validator 3 has no account there. *)
 Example ex_transform :
-  transform_vals ex_vals 0 = [(21, 4290772992); (11, 4194303)] /\
-  is_enough (map snd (transform_vals ex_vals 0)) = true /\
+  transform_vals ex_vals "c0" = [(21, 4290772992); (11, 4194303)] /\
+  is_enough (map snd (transform_vals ex_vals "c0")) = true /\
   is_enough [2863311529] = false /\ is_enough [2863311530] = true.
 Proof. vm_compute. repeat split; reflexivity. Qed.
 
 Definition ex_cops : list cop :=
-  [ CValset (OActive [0]);
+  [ CValset (OChains [("c0", true); ("c1", false)]);
     CValset (OStaking [ {| sv_addr := 1; sv_bonded := true; sv_jailed := false; sv_tokens := 10 |};
                         {| sv_addr := 2; sv_bonded := true; sv_jailed := false; sv_tokens := 20 |};
                         {| sv_addr := 3; sv_bonded := true; sv_jailed := false; sv_tokens := 70 |} ]);
-    CValset (ORegister 1 [ {| ei_evm := true; ei_chain := 0; ei_addr := 11 |} ] true);
-    CValset (ORegister 2 [ {| ei_evm := true; ei_chain := 0; ei_addr := 21 |} ] true);
-    CValset (ORegister 3 [ {| ei_evm := true; ei_chain := 0; ei_addr := 31 |}; {| ei_evm := true; ei_chain := 1; ei_addr := 32 |} ] true);
+    CValset (ORegister 1 [ {| ei_type := "evm"; ei_chain := "c0"; ei_addr := 11; ei_traits := [] |} ] true);
+    CValset (ORegister 2 [ {| ei_type := "evm"; ei_chain := "c0"; ei_addr := 21; ei_traits := [] |} ] true);
+    CValset (ORegister 3 [ {| ei_type := "evm"; ei_chain := "c0"; ei_addr := 31; ei_traits := [] |}; {| ei_type := "evm"; ei_chain := "c1"; ei_addr := 32; ei_traits := [] |} ] true);
     CValset (OBuild true);
-    CSend 1 0 true;      (* sent: all three have an account on chain 0 *)
-    CSend 1 1 true;      (* sent: validator 3 alone (70 % >= 2/3) has an account on chain 1 *)
-    CSend 1 2 true;      (* not sent: nobody has an account on chain 2 *)
-    CSend 5 0 true ].    (* no such snapshot *)
+    CSend 1 "c0" true;      (* sent: all three have an account on chain 0 *)
+    CSend 1 "c1" true;      (* sent: validator 3 alone (70 % >= 2/3) has an account on chain 1 *)
+    CSend 1 "c2" true;      (* not sent: nobody has an account on chain 2 *)
+    CSend 5 "c0" true ].    (* no such snapshot *)
 
 Example ex_sent :
   ops_nonneg ex_cops /\
   cs_sent (crun ex_cops) =
-    [ (1, 1, [(32, 3006477107)]); (0, 1, [(31, 3006477107); (21, 858993459); (11, 429496729)]) ].
+    [ ("c1", 1, [(32, 3006477107)]); ("c0", 1, [(31, 3006477107); (21, 858993459); (11, 429496729)]) ].
 Proof. split; [repeat constructor; cbn; lia | vm_compute; reflexivity]. Qed.
